@@ -883,5 +883,304 @@ theorem gear_one_sided_constraint (ratio : F) (hr : ratio ≠ 0) (w : World F) (
     refine ⟨_, ha, rfl, ?_⟩
     apply state_ext; intro k; simp only [comp_divF, comp_mulF]; field_simp
 
+/-! ## differential (tier R) -/
+
+/-- B1/B3, distrust side 1: the recomputed branch together with the two reads it was computed from satisfies
+`side1 + side2 = sum`; hence if the reads are consistent with some value `x` of side 1 (`sum = x + side2`),
+exactly `x` is written. -/
+theorem diff_side1_satisfies_constraint (w : World F) (i1 i2 isum : Nat) (s b : Datum (State F))
+    (hs : w.getState isum = some s) (h2 : w.getState i2 = some b) :
+    ∃ n1 : State F,
+      ((Differential.update .side1 w i1 i2 isum).t i1).state = some ⟨max s.time b.time, n1⟩ ∧
+      State.add n1 b.value = s.value ∧
+      ∀ x : State F, s.value = State.add x b.value → n1 = x := by
+  obtain ⟨_, _, ha, _⟩ := diff_update_side1 w i1 i2 isum s b hs h2
+  refine ⟨_, ha, ?_, ?_⟩
+  · apply state_ext; intro k; simp only [comp_add, comp_sub]; ring
+  · intro x hx; apply state_ext; intro k; simp only [hx, comp_add, comp_sub]; ring
+
+/-- B1/B3, distrust side 2 -/
+theorem diff_side2_satisfies_constraint (w : World F) (i1 i2 isum : Nat) (s a : Datum (State F))
+    (hs : w.getState isum = some s) (h1 : w.getState i1 = some a) :
+    ∃ n2 : State F,
+      ((Differential.update .side2 w i1 i2 isum).t i2).state = some ⟨max s.time a.time, n2⟩ ∧
+      State.add a.value n2 = s.value ∧
+      ∀ y : State F, s.value = State.add a.value y → n2 = y := by
+  obtain ⟨_, _, ha, _⟩ := diff_update_side2 w i1 i2 isum s a hs h1
+  refine ⟨_, ha, ?_, ?_⟩
+  · apply state_ext; intro k; simp only [comp_add, comp_sub]; ring
+  · intro y hy; apply state_ext; intro k; simp only [hy, comp_add, comp_sub]; ring
+
+/-- B1/B3, distrust sum: the sum slot receives exactly `side1 + side2` (true for any scalar type) -/
+theorem diff_sum_satisfies_constraint (w : World F) (i1 i2 isum : Nat) (a b : Datum (State F))
+    (h1 : w.getState i1 = some a) (h2 : w.getState i2 = some b) :
+    ∃ ns : State F,
+      ((Differential.update .sum w i1 i2 isum).t isum).state = some ⟨max a.time b.time, ns⟩ ∧
+      State.add a.value b.value = ns := by
+  obtain ⟨_, _, ha, _⟩ := diff_update_sum w i1 i2 isum a b h1 h2
+  exact ⟨_, ha, rfl⟩
+
+/-- B1 + B2, all branches trusted: the three states held after the update satisfy `side1 + side2 = sum` and,
+in every component, are the least-squares projection of the three reads onto that plane. -/
+theorem diff_equal_least_squares (w : World F) (i1 i2 isum : Nat) (a b s : Datum (State F))
+    (h12 : i1 ≠ i2) (h1s : i1 ≠ isum) (h2s : i2 ≠ isum)
+    (h1 : w.getState i1 = some a) (h2 : w.getState i2 = some b) (hs : w.getState isum = some s) :
+    ∃ n1 n2 ns : State F,
+      ((Differential.update .equal w i1 i2 isum).t i1).state = some ⟨max (max a.time b.time) s.time, n1⟩ ∧
+      ((Differential.update .equal w i1 i2 isum).t i2).state = some ⟨max (max a.time b.time) s.time, n2⟩ ∧
+      ((Differential.update .equal w i1 i2 isum).t isum).state = some ⟨max (max a.time b.time) s.time, ns⟩ ∧
+      State.add n1 n2 = ns ∧
+      (∀ k, comp k n1 = (2 * comp k a.value - comp k b.value + comp k s.value) / 3 ∧
+            comp k n2 = (- comp k a.value + 2 * comp k b.value + comp k s.value) / 3 ∧
+            comp k ns = (comp k a.value + comp k b.value + 2 * comp k s.value) / 3) ∧
+      (∀ (k : PosDer) (a' b' : F),
+        (comp k a.value - comp k n1) ^ 2 + (comp k b.value - comp k n2) ^ 2 + (comp k s.value - comp k ns) ^ 2
+          ≤ (comp k a.value - a') ^ 2 + (comp k b.value - b') ^ 2 + (comp k s.value - (a' + b')) ^ 2) ∧
+      (∀ p1 p2 ps : State F, ps = State.add p1 p2 →
+        sqDist a.value n1 + sqDist b.value n2 + sqDist s.value ns
+          ≤ sqDist a.value p1 + sqDist b.value p2 + sqDist s.value ps) := by
+  obtain ⟨_, ha, hb, hc, _⟩ := diff_update_equal w i1 i2 isum a b s h12 h1s h2s h1 h2 hs
+  have hls : ∀ (k : PosDer) (a' b' : F),
+      (comp k a.value - comp k (eqNew1 a.value b.value s.value)) ^ 2
+        + (comp k b.value - comp k (eqNew2 a.value b.value s.value)) ^ 2
+        + (comp k s.value - comp k (eqNewSum a.value b.value s.value)) ^ 2
+        ≤ (comp k a.value - a') ^ 2 + (comp k b.value - b') ^ 2 + (comp k s.value - (a' + b')) ^ 2 := by
+    intro k a' b'
+    simp only [eqNew1, eqNew2, eqNewSum, comp_divF, comp_mulF, comp_add, comp_sub, comp_neg, c2_eq, c3_eq]
+    exact scalar_diff_ls _ _ _ _ _
+  refine ⟨_, _, _, ha, hb, hc, ?_, ?_, hls, ?_⟩
+  · apply state_ext; intro k
+    simp only [eqNew1, eqNew2, eqNewSum, comp_divF, comp_mulF, comp_add, comp_sub, comp_neg, c2_eq, c3_eq]
+    ring
+  · intro k
+    simp only [eqNew1, eqNew2, eqNewSum, comp_divF, comp_mulF, comp_add, comp_sub, comp_neg, c2_eq, c3_eq]
+    refine ⟨by ring, by ring, by ring⟩
+  · intro p1 p2 ps hp
+    subst hp
+    have e1 := hls .position (comp .position p1) (comp .position p2)
+    have e2 := hls .velocity (comp .velocity p1) (comp .velocity p2)
+    have e3 := hls .acceleration (comp .acceleration p1) (comp .acceleration p2)
+    simp only [sqDist_eq, comp_add] at *
+    linarith
+
+/-- B3, all branches trusted: reads with `sum = side1 + side2` are reproduced unchanged -/
+theorem diff_equal_fixed_on_constraint (w : World F) (i1 i2 isum : Nat) (a b s : Datum (State F))
+    (h12 : i1 ≠ i2) (h1s : i1 ≠ isum) (h2s : i2 ≠ isum)
+    (h1 : w.getState i1 = some a) (h2 : w.getState i2 = some b) (hs : w.getState isum = some s)
+    (hc : s.value = State.add a.value b.value) :
+    ((Differential.update .equal w i1 i2 isum).t i1).state = some ⟨max (max a.time b.time) s.time, a.value⟩ ∧
+    ((Differential.update .equal w i1 i2 isum).t i2).state = some ⟨max (max a.time b.time) s.time, b.value⟩ ∧
+    ((Differential.update .equal w i1 i2 isum).t isum).state = some ⟨max (max a.time b.time) s.time, s.value⟩ := by
+  obtain ⟨_, ha, hb, hsm, _⟩ := diff_update_equal w i1 i2 isum a b s h12 h1s h2s h1 h2 hs
+  have e1 : eqNew1 a.value b.value s.value = a.value := by
+    apply state_ext; intro k
+    simp only [eqNew1, hc, comp_divF, comp_mulF, comp_add, comp_sub, comp_neg, c2_eq, c3_eq]; ring
+  have e2 : eqNew2 a.value b.value s.value = b.value := by
+    apply state_ext; intro k
+    simp only [eqNew2, hc, comp_divF, comp_mulF, comp_add, comp_sub, comp_neg, c2_eq, c3_eq]; ring
+  have e3 : eqNewSum a.value b.value s.value = s.value := by
+    apply state_ext; intro k
+    simp only [eqNewSum, hc, comp_divF, comp_mulF, comp_add, comp_sub, comp_neg, c2_eq, c3_eq]; ring
+  rw [ha, hb, hsm, e1, e2, e3]
+  exact ⟨rfl, rfl, rfl⟩
+
+/-! ## axle (tier R) -/
+
+/-- component `k` of the code's left-to-right sum is the starting value plus the list sum -/
+theorem comp_sumFrom (k : PosDer) (ds : List (Datum (State F))) : ∀ s0 : State F,
+    comp k (sumFrom s0 ds) = comp k s0 + (ds.map (fun d => comp k d.value)).sum := by
+  induction ds with
+  | nil => intro s0; simp [sumFrom]
+  | cons d ds ih =>
+    intro s0
+    have e : sumFrom s0 (d :: ds) = sumFrom (State.add s0 d.value) ds := rfl
+    rw [e, ih, comp_add]
+    simp only [List.map_cons, List.sum_cons]
+    ring
+
+/-- component `k` of the broadcast datum is the arithmetic mean of that component of the present reads -/
+theorem comp_axleDatum (k : PosDer) (ds : List (Datum (State F))) :
+    comp k (axleDatum ds).value
+      = (ds.map (fun d => comp k d.value)).sum / ((ds.map (fun d => comp k d.value)).length : F) := by
+  simp only [axleDatum, comp_divF, comp_sumFrom, List.length_map]
+  have : comp k (⟨c0, c0, c0⟩ : State F) = 0 := by cases k <;> simp [comp]
+  rw [this, zero_add, ExactScalar.ofInt_eq, Int.cast_natCast]
+
+/-- B1 + B2, axle of any size: every terminal of the axle holds the same datum, stamped with the running
+maximum of the read times, whose value is in every component the mean of the present reads, and the mean
+minimises the sum of squared deviations from the reads. -/
+theorem axle_least_squares (w : World F) (is : List Nat) (h : ∃ i ∈ is, w.getState i ≠ none) :
+    ∃ d : Datum (State F),
+      (∀ i ∈ is, ((Axle.update w is).t i).state = some d) ∧
+      d.time = maxTime i64Min (presentReads w is) ∧
+      (∀ k, comp k d.value = ((presentReads w is).map (fun r => comp k r.value)).sum
+                              / ((presentReads w is).length : F)) ∧
+      (∀ (k : PosDer) (m' : F),
+        sqDev ((presentReads w is).map (fun r => comp k r.value)) (comp k d.value)
+          ≤ sqDev ((presentReads w is).map (fun r => comp k r.value)) m') := by
+  obtain ⟨_, hb, _⟩ := axle_update_broadcast w is h
+  have hne : presentReads w is ≠ [] := by
+    obtain ⟨i, hi, hn⟩ := h
+    cases hg : w.getState i with
+    | none => exact absurd hg hn
+    | some g =>
+      have : g ∈ presentReads w is := by
+        simp only [presentReads, List.mem_filterMap]; exact ⟨i, hi, hg⟩
+      exact List.ne_nil_of_mem this
+  refine ⟨axleDatum (presentReads w is), hb, rfl, ?_, ?_⟩
+  · intro k; rw [comp_axleDatum, List.length_map]
+  · intro k m'
+    rw [comp_axleDatum]
+    exact (scalar_mean_ls _ (by simpa using hne) m').2
+
+/-- B3, axle: if all present reads carry the same state `v`, that state is what every terminal receives -/
+theorem axle_fixed_on_constraint (w : World F) (is : List Nat) (h : ∃ i ∈ is, w.getState i ≠ none)
+    (v : State F) (hv : ∀ r ∈ presentReads w is, r.value = v) :
+    ∀ i ∈ is, ((Axle.update w is).t i).state = some ⟨maxTime i64Min (presentReads w is), v⟩ := by
+  obtain ⟨d, hb, ht, hm, _⟩ := axle_least_squares w is h
+  have hne : (presentReads w is).length ≠ 0 := by
+    obtain ⟨i, hi, hn⟩ := h
+    cases hg : w.getState i with
+    | none => exact absurd hg hn
+    | some g =>
+      have : g ∈ presentReads w is := by
+        simp only [presentReads, List.mem_filterMap]; exact ⟨i, hi, hg⟩
+      exact Nat.ne_of_gt (List.length_pos_of_mem this)
+  have hsum : ∀ (k : PosDer) (ds : List (Datum (State F))), (∀ r ∈ ds, r.value = v) →
+      (ds.map (fun r => comp k r.value)).sum = (ds.length : F) * comp k v := by
+    intro k ds
+    induction ds with
+    | nil => intro _; simp
+    | cons r ds ih =>
+      intro hr
+      simp only [List.map_cons, List.sum_cons, List.length_cons, Nat.cast_succ]
+      rw [ih (fun r' hr' => hr r' (List.mem_cons_of_mem r hr')), hr r (List.mem_cons_self ..)]
+      ring
+  have hval : d.value = v := by
+    apply state_ext; intro k
+    rw [hm k, hsum k _ hv]
+    have : ((presentReads w is).length : F) ≠ 0 := by exact_mod_cast hne
+    field_simp
+  intro i hi
+  rw [hb i hi]
+  cases d with
+  | mk t x =>
+    simp only at ht hval
+    rw [ht, hval]
+
+/-! ## tooth counts (tier R) -/
+
+/-- the sign factor of `GearTrain::new` is `(−1)^(N−1)` -/
+theorem gear_ratio_sign (N : Nat) (hN : N ≥ 1) :
+    (if N % 2 = 0 then (cm1 : F) else c1) = (-1) ^ (N - 1) := by
+  obtain ⟨m, rfl⟩ : ∃ m, N = m + 1 := ⟨N - 1, by omega⟩
+  simp only [Nat.add_sub_cancel, cm1_eq, c1_eq]
+  rcases Nat.even_or_odd m with he | ho
+  · have : ¬ (m + 1) % 2 = 0 := by have := Nat.even_iff.1 he; omega
+    rw [if_neg this, he.neg_one_pow]
+  · have : (m + 1) % 2 = 0 := by have := Nat.odd_iff.1 ho; omega
+    rw [if_pos this, ho.neg_one_pow]
+
+/-- `GearTrain::new(teeth)`, `N ≥ 2`: ratio `first / last · (−1)^(N−1)` -/
+theorem gear_ratio_from_teeth_pow (teeth : List F) (h : teeth.length ≥ 2) :
+    ∃ first last, teeth.head? = some first ∧ teeth.getLast? = some last ∧
+      GearTrain.ratioOfTeeth teeth = .ok (first / last * (-1) ^ (teeth.length - 1)) := by
+  obtain ⟨f, l, h1, h2, h3⟩ := gear_ratio_from_teeth teeth h
+  exact ⟨f, l, h1, h2, by rw [h3, gear_ratio_sign _ (by omega)]⟩
+
 end R
+/-! # Non-vacuity: every hypothesis pattern above is met by a concrete world over `ℚ` -/
+section Examples
+
+/-- terminals 0, 1, 2 hold states (times 5, 7, 6); terminal 3 is empty; terminal 2 is linked to terminal 4,
+which holds a newer state, so the state *read* at 2 (mean of both, time 9) differs from the one *held* by 2 -/
+def wq : World ℚ := ⟨6, fun j =>
+  if j = 0 then ⟨some ⟨5, ⟨1, 2, 3⟩⟩, none, none⟩
+  else if j = 1 then ⟨some ⟨7, ⟨3, 0, 1⟩⟩, none, none⟩
+  else if j = 2 then ⟨some ⟨6, ⟨2, 2, 2⟩⟩, none, some 4⟩
+  else if j = 4 then ⟨some ⟨9, ⟨4, 0, 0⟩⟩, none, some 2⟩
+  else ⟨none, none, none⟩⟩
+
+/-- a world whose reads already satisfy all the constraints used below:
+`s1 = −s0`, `s2 = 2·s0`, `s3 = s0`, `s4 = s0 + s2` -/
+def wc : World ℚ := ⟨6, fun j =>
+  if j = 0 then ⟨some ⟨5, ⟨1, 2, 3⟩⟩, none, none⟩
+  else if j = 1 then ⟨some ⟨7, ⟨-1, -2, -3⟩⟩, none, none⟩
+  else if j = 2 then ⟨some ⟨6, ⟨2, 4, 6⟩⟩, none, none⟩
+  else if j = 3 then ⟨some ⟨2, ⟨1, 2, 3⟩⟩, none, none⟩
+  else if j = 4 then ⟨some ⟨4, ⟨3, 6, 9⟩⟩, none, none⟩
+  else ⟨none, none, none⟩⟩
+
+example : wq.getState 0 = some ⟨5, ⟨1, 2, 3⟩⟩ := rfl
+example : wq.getState 3 = none := rfl
+example : (wq.getState 2).map (·.time) = some 9 := rfl
+
+-- inverter
+example := invert_update_none wq 3 5 rfl rfl
+example := invert_update_one_right wq 3 0 _ rfl rfl
+example := invert_update_one_left wq 0 3 _ rfl rfl
+example := invert_update_both wq 0 2 _ _ (by decide) rfl rfl
+example := invert_satisfies_constraint wq 0 2 _ _ (by decide) rfl rfl
+example := invert_least_squares wq 0 2 _ _ (by decide) rfl rfl
+example := invert_fixed_on_constraint wc 0 1 _ _ (by decide) rfl rfl (by simp [State.neg])
+example := (invert_one_sided_constraint wq 3 0 _).1 rfl rfl
+example := (invert_one_sided_constraint wq 0 3 _).2 rfl rfl
+-- gear train
+example := gear_update_none (2 : ℚ) wq 3 5 rfl rfl
+example := gear_update_one_right (2 : ℚ) wq 3 0 _ rfl rfl
+example := gear_update_one_left (2 : ℚ) wq 0 3 _ rfl rfl
+example := gear_update_both (2 : ℚ) wq 0 2 _ _ (by decide) rfl rfl
+example := gear_least_squares (2 : ℚ) wq 0 2 _ _ (by decide) rfl rfl
+example := gear_satisfies_constraint (2 : ℚ) wq 0 2 _ _ (by decide) rfl rfl
+example := gear_fixed_on_constraint (2 : ℚ) wc 0 2 _ _ (by decide) rfl rfl (by norm_num [State.mulF])
+example := (gear_one_sided_constraint (2 : ℚ) (by norm_num) wq 0 3 _).1 rfl rfl
+example := (gear_one_sided_constraint (2 : ℚ) (by norm_num) wq 3 0 _).2 rfl rfl
+-- axle (terminal 3 has no information and still receives the datum)
+example := axle_update_none wq [3, 5] (by intro i hi; simp at hi; rcases hi with rfl | rfl <;> rfl)
+example := axle_update_broadcast wq [0, 3, 2, 1] ⟨0, by simp, by simp [show wq.getState 0 = some _ from rfl]⟩
+example := axle_satisfies_constraint wq [0, 3, 2, 1] ⟨0, by simp, by simp [show wq.getState 0 = some _ from rfl]⟩
+example := axle_least_squares wq [0, 3, 2, 1] ⟨0, by simp, by simp [show wq.getState 0 = some _ from rfl]⟩
+example : presentReads wc [0, 5, 3] = [⟨5, ⟨1, 2, 3⟩⟩, ⟨2, ⟨1, 2, 3⟩⟩] := rfl
+example := axle_fixed_on_constraint wc [0, 5, 3] ⟨0, by simp, by simp [show wc.getState 0 = some _ from rfl]⟩
+  ⟨1, 2, 3⟩ (by
+    intro r hr
+    rw [show presentReads wc [0, 5, 3] = [⟨5, ⟨1, 2, 3⟩⟩, ⟨2, ⟨1, 2, 3⟩⟩] from rfl] at hr
+    simp at hr; rcases hr with rfl | rfl <;> rfl)
+example := axle_time_is_newest (F := ℚ) [⟨5, ⟨1, 2, 3⟩⟩, ⟨2, ⟨1, 2, 3⟩⟩] (by simp)
+  (by intro d hd; simp at hd; rcases hd with rfl | rfl <;> simp [i64Min])
+/-- the axle's datum on a concrete world: time 9 (newest read), mean of the three present reads -/
+example : (axleDatum (presentReads wq [0, 3, 2, 1])).time = 9 := by decide
+example : comp .position (axleDatum (presentReads wq [0, 3, 2, 1])).value = (1 + 3 + 3) / 3 := by
+  rw [comp_axleDatum]
+  rw [show presentReads wq [0, 3, 2, 1] = [⟨5, ⟨1, 2, 3⟩⟩,
+      Datum.scalar State.divF (Datum.combine State.add ⟨6, ⟨2, 2, 2⟩⟩ ⟨9, ⟨4, 0, 0⟩⟩) c2, ⟨7, ⟨3, 0, 1⟩⟩] from rfl]
+  simp [comp, Datum.scalar, Datum.combine, State.add, State.divF]
+  norm_num
+-- differential
+example := diff_waits_for_trusted .side1 wq 0 3 1 ⟨3, by simp [trusted], rfl⟩
+example := diff_waits_for_trusted .side2 wq 3 0 1 ⟨3, by simp [trusted], rfl⟩
+example := diff_waits_for_trusted .sum wq 0 3 1 ⟨3, by simp [trusted], rfl⟩
+example := diff_waits_for_trusted .equal wq 0 1 3 ⟨3, by simp [trusted], rfl⟩
+example := diff_update_side1 wq 3 0 2 _ _ rfl rfl
+example := diff_update_side2 wq 0 3 2 _ _ rfl rfl
+example := diff_update_sum wq 0 1 3 _ _ rfl rfl
+example := diff_update_equal wq 0 1 2 _ _ _ (by decide) (by decide) (by decide) rfl rfl rfl
+example := diff_side1_satisfies_constraint wq 3 0 2 _ _ rfl rfl
+example := diff_side2_satisfies_constraint wq 0 3 2 _ _ rfl rfl
+example := diff_sum_satisfies_constraint wq 0 1 3 _ _ rfl rfl
+example := diff_equal_least_squares wq 0 1 2 _ _ _ (by decide) (by decide) (by decide) rfl rfl rfl
+example := diff_equal_fixed_on_constraint wc 0 2 4 _ _ _ (by decide) (by decide) (by decide) rfl rfl rfl
+  (by norm_num [State.add])
+-- tooth counts
+example := gear_ratio_from_teeth ([20, 40, 10] : List ℚ) (by decide)
+example := gear_ratio_too_few ([20] : List ℚ) (by decide)
+example := gear_ratio_from_teeth_pow ([20, 40, 10, 5] : List ℚ) (by decide)
+example : GearTrain.ratioOfTeeth ([20, 40, 10, 5] : List ℚ) = .ok (-4) := by
+  simp [GearTrain.ratioOfTeeth]; norm_num
+example : GearTrain.ratioOfTeeth ([20, 40, 10] : List ℚ) = .ok 2 := by
+  simp [GearTrain.ratioOfTeeth]; norm_num
+-- scalar lemmas
+example := scalar_mean_ls ([1, 3, 3] : List ℚ) (by simp) 2
+
+end Examples
 end Rrtk.Thm.C08
